@@ -1062,6 +1062,8 @@ fn get_circuit_info(
         .map(|generic_arg| (extract_matches!(generic_arg, GenericArg::Type).clone(), true))
         .collect();
 
+    // The gates whose inputs are currently being visited, used for detecting cyclic definitions.
+    let mut in_progress = UnorderedHashSet::<ConcreteTypeId>::default();
     while let Some((ty, first_visit)) = stack.pop() {
         let long_id = &context.get_type_info(&ty)?.long_id;
 
@@ -1076,6 +1078,10 @@ fn get_circuit_info(
             .map(|generic_arg| extract_matches!(generic_arg, GenericArg::Type));
 
         if first_visit {
+            // A gate that is (transitively) an input of itself is not a valid circuit.
+            if !in_progress.insert(ty.clone()) {
+                return Err(SpecializationError::UnsupportedGenericArg);
+            }
             stack.push((ty, false));
             stack.extend(gate_inputs.map(|ty| (ty.clone(), true)))
         } else {
